@@ -151,6 +151,37 @@ def guarded(fn, args, kwargs, limit=WATCHDOG_S):
         return "hang", None, None
 
 
+# heartbeat: a call stuck inside one C-level loop (e.g. `x in range(2**64)` with a float x) never runs the
+# signal handler, so the in-process watchdog cannot end it.  Each worker therefore writes the call it is about
+# to make to a file in /dev/shm; the parent kills a worker whose CPU time has advanced far beyond the
+# watchdog on one call, and records that call as a hang.
+_HB = {"fd": None, "task": ""}
+
+
+def heartbeat_open(path, task):
+    import os
+    _HB["fd"] = os.open(path, os.O_RDWR | os.O_CREAT | os.O_TRUNC, 0o600)
+    _HB["task"] = task
+
+
+def _hb(wjson, consumer=""):
+    fd = _HB["fd"]
+    if fd is None:
+        return
+    import os
+    import time
+    data = f"{time.time():.3f}\n{time.process_time():.3f}\n{_HB['task']}\n{consumer}\n{wjson}".encode("utf8", "surrogatepass")
+    os.ftruncate(fd, 0)
+    os.pwrite(fd, data, 0)
+
+
+def heartbeat_idle():
+    fd = _HB["fd"]
+    if fd is not None:
+        import os
+        os.ftruncate(fd, 0)
+
+
 class Recorder:
     """what one task observed; merged into ctx by the parent"""
 
@@ -256,8 +287,10 @@ def call_spec(R: Recorder, stream: str, ep: str, args, kwargs=None, *, fn=None, 
         kw = {k: G.materialize(v) for k, v in kwargs.items()}
     except Exception as e:  # noqa: BLE001
         raise common.HarnessError(f"cannot build the call {ep} {G.short(witness)}: {type(e).__name__}: {e}") from e
+    wfull = json.dumps(witness, default=str, sort_keys=True)
+    _hb(wfull[:20000])
     outcome, value, exc = guarded(f, a, kw, limit)
-    dsrc = json.dumps(witness, default=str, sort_keys=True)[:3000]
+    dsrc = wfull[:3000]
     R.note(stream, ep, outcome if not outcome.startswith("foreign") else "foreign", dsrc, outcome == "ok")
     if outcome == "hang":
         R.hung[ep] = R.hung.get(ep, 0) + 1
@@ -285,6 +318,7 @@ def call_spec(R: Recorder, stream: str, ep: str, args, kwargs=None, *, fn=None, 
                    witness)
     if consumers and value is not None and type(value).__module__.startswith("btclib"):
         for cname, thunk in consumer_calls(value) + specific_consumers(value):
+            _hb(wfull[:20000], cname)
             o3, _, e3 = guarded(thunk, (), {})
             R.counts[(stream + ".consumers", ep, o3 if not o3.startswith("foreign") else "foreign")] = \
                 R.counts.get((stream + ".consumers", ep, o3 if not o3.startswith("foreign") else "foreign"), 0) + 1
@@ -311,13 +345,29 @@ def _ser(v):
     return v.serialize()
 
 
-def replay_call(w):
-    """ORACLES['call']: re-run one recorded call under the same oracle -> (ok, detail)"""
+def _replay_child(w, q):
     install_watchdog()
     R = Recorder()
     eps = enumerate_entry_points()
     info = eps.get(w["ep"])
     call_spec(R, "replay", w["ep"], w["args"], w.get("kwargs") or {}, bool_ret=bool(info and info["bool_ret"]))
-    if R.failures:
-        return False, R.failures[0]["detail"]
-    return True, "inside the contract"
+    q.put((False, R.failures[0]["detail"]) if R.failures else (True, "inside the contract"))
+
+
+def replay_call(w):
+    """ORACLES['call']: re-run one recorded call under the same oracle, in a child process (a call that no
+    signal can interrupt must not take the checker with it) -> (ok, detail)"""
+    import multiprocessing
+    mp = multiprocessing.get_context("fork")
+    q = mp.Queue()
+    p = mp.Process(target=_replay_child, args=(w, q))
+    p.start()
+    p.join(90)
+    if p.is_alive():
+        p.kill()
+        p.join()
+        return False, f"{w['ep']} did not return within 90 s and could not be interrupted"
+    try:
+        return q.get(timeout=5)
+    except Exception:  # noqa: BLE001
+        return False, f"{w['ep']}: the replay process died (exit code {p.exitcode})"
